@@ -122,6 +122,37 @@ def make_run(t):
                 continue
             if bool(inside) != (first is not None):
                 ctx.fail("membership-vs-lookup", f"{t}: ({lab!r} in b) is {inside} but lookup by that label {'succeeds' if first is not None else 'fails'} (labels: {labels})")
+        # a label is a label in whatever str type it arrives: numpy.str_ (a label taken from an array of names), a str-valued Enum member,
+        # an application's own str subclass
+        import enum
+
+        class Name(str):
+            pass
+
+        for lab in sorted(set(labels[:3] + ["zz", "a"])):
+            first = next((it for it in items if it.label == lab), None)
+            forms = [("numpy.str_", np.str_(lab)), ("str-subclass", Name(lab))]
+            if lab.isidentifier():
+                forms.append(("str-Enum", enum.Enum("Lab", {lab: lab}, type=str)[lab]))
+            for fname, key in forms:
+                try:
+                    got, exc = b[key], None
+                except KeyError as e:
+                    got, exc = None, e
+                except Exception as e:  # noqa
+                    got, exc = None, e
+                if exc is not None and not isinstance(exc, KeyError):
+                    ctx.fail(f"label-as-{fname}/wrong-exception", f"{t}: b[{fname}({lab!r})] raised {type(exc).__name__} (a plain str with the same text {'finds the item' if first is not None else 'gives KeyError'})")
+                elif first is None and exc is None:
+                    ctx.fail(f"label-as-{fname}/absent-returns", f"{t}: b[{fname}({lab!r})] returned an item; no item has that label")
+                elif first is not None and got is not first:
+                    ctx.fail(f"label-as-{fname}/not-first-match", f"{t}: b[{fname}({lab!r})] did not return the first item carrying that label")
+                try:
+                    inside = key in b
+                except Exception as e:  # noqa
+                    inside = e
+                if isinstance(inside, Exception) or bool(inside) != (first is not None):
+                    ctx.fail(f"label-as-{fname}/membership-vs-lookup", f"{t}: ({fname}({lab!r}) in b) gives {inside!r} but lookup by that label {'succeeds' if first is not None else 'fails'}")
         for i, it in enumerate(items):
             try:
                 inside = it in b
